@@ -18,6 +18,9 @@ fn text(construct: &str, n: usize) -> String {
         // the same table with a condition that is None: the evaluation fails at the first level — whatever reports the failure
         // must not walk the arms that were never evaluated
         "else-chain-none" => format!("{}c", "if nothing then b else ".repeat(n)),
+        // a deep right-nested operand that evaluation never reaches (the left operand decides)
+        "and-skip-right" => format!("false and {}a{}", "(a and ".repeat(n), ")".repeat(n)),
+        "or-skip-right" => format!("true or {}a{}", "(a or ".repeat(n), ")".repeat(n)),
         "and-chain-none" => format!("nothing{}", " and a".repeat(n)),
         "index-chain" => format!("a{}", ".b".repeat(n)),
         "parens" => format!("{}a{}", "(".repeat(n), ")".repeat(n)),
@@ -117,6 +120,18 @@ fn work(construct: &str, op: &str, n: usize) {
                         std::mem::forget(v);
                     }
                     std::mem::forget(e);
+                }
+                // the tree handed to the public constructors of a rule and a ruleset (moved, not walked)
+                "rule-new" => {
+                    let r = Rule::new("r", std::collections::BTreeMap::new(), e);
+                    std::mem::forget(r);
+                }
+                "ruleset-build" => {
+                    let r = Rule::new("r", std::collections::BTreeMap::new(), e);
+                    match reval::prelude::ruleset().with_rule(r) {
+                        Ok(b) => std::mem::forget(b.build()),
+                        Err(er) => std::mem::forget(er),
+                    }
                 }
                 "evaluate" => {
                     let facts: Value = std::collections::BTreeMap::from([("a", Value::Bool(true)), ("b", Value::Int(1)), ("c", Value::Int(2)), ("nothing", Value::None)]).into();
